@@ -284,7 +284,7 @@ theorem operands_unchanged (s s' : Store α) (op : Op α) (k : Nat) (hop : op.in
         split at h; · simp at h
         simp only [Except.ok.injEq, Prod.mk.injEq] at h
         rw [← h.1]
-        exact ⟨List.prefix_refl _, List.prefix_append _ _, List.prefix_append _ _, rfl, rfl⟩
+        exact ⟨List.prefix_append _ _, List.prefix_append _ _, List.prefix_append _ _, rfl, rfl⟩
     case item sid i =>
       simp only [Store.step, Store.pureOp, Store.itemOp] at h
       split at h
@@ -1163,7 +1163,7 @@ example :
 
 /-- sets, slices, copies, series sets and another package: a reachable store in which object 2 is a series set
 of two reactions, 3 its slice `[1:2]`, 4 an item of the slice (reading cell 1 of X array 0), 5 a `wt` copy of the
-set (own arrays: ids ≥ 2, X array 1); reaction 0 is then re-indexed onto package 1 = (chemicals 2, 0, 4, 9) -/
+set (own arrays: ids 4, 5, X array 1; the set itself holds copies 2, 3 of its members' arrays 0, 1); reaction 0 is then re-indexed onto package 1 = (chemicals 2, 0, 4, 9) -/
 def exStore2 : Store ℚ := Store.run { nchem := 5, mw := [18, 46, 180, 44, 32], alts := [⟨[2, 0, 4, 9], [180, 18, 32, 28]⟩] }
   [.new 0 .mol 2 (1/2) [1, 0, -1, 0, -1], .new 0 .mol 2 (1/4) [1, 0, -1, 1, -1], .mkSet true [0, 1], .slice 2 1 2,
    .item 3 0, .setCopy 2 .wt, .setX 4 (1/8)]
@@ -1173,13 +1173,13 @@ example : exStore2.WF := reachable_wf_alts 5 _ _ _
 example :
     (decide (exStore2.objs.length = 6)
       && (match exStore2.objs[3]? with
-          | some (Obj.set t) => t.series && t.xa == 0 && t.xoff == 1 && decide (t.rows = [1])
+          | some (Obj.set t) => t.series && t.xa == 0 && t.xoff == 1 && decide (t.rows = [3])
           | _ => false)
       && (match exStore2.objs[4]? with
           | some (Obj.rxn r) => (match r.x with | .shared xa i => xa == 0 && i == 1 | .own _ => false)
           | _ => false)
       && (match exStore2.objs[5]? with
-          | some (Obj.set t) => t.xa == 1 && decide (t.rows = [2, 3]) && decide (t.basis = .wt)
+          | some (Obj.set t) => t.xa == 1 && decide (t.rows = [4, 5]) && decide (t.basis = .wt)
           | _ => false)
       -- the item write is read by the set and by its slice, not by the copy
       && decide (cell exStore2 0 1 = 1/8) && decide (cell exStore2 1 1 = 1/4)
